@@ -570,6 +570,11 @@ func binaryWrite(f *Frame, in ssa.Instruction, args []SV, cc *ssa.CallCommon, st
 	}
 	res := freshErrorOrNil(f, in, st, g)
 	okc := "(= (i.tid " + res.T + ") 0)"
+	if _, ok := f.x.S.Ghosts["wrNeverFails"]; ok {
+		// binary.Write of a fixed-size integer fails only if the writer does
+		fnm := c.declFun("ghost:wrNeverFails", []string{"Int"}, "Bool")
+		c.assume(g, fmt.Sprintf("(=> %s %s)", app(fnm, wref), okc))
+	}
 	badLen := c.freshConst("wrlen", "Int")
 	c.assert(fmt.Sprintf("(and (>= %s %s) (<= %s (+ %s %d)))", badLen, L, badLen, L, n))
 	badArr := c.freshConst("wrlog", "(Array Int Int)")
